@@ -40,7 +40,7 @@ def is_status_test(n):
 
 
 def is_pointerish(n):
-    t = n.type()
+    t = re.sub(r'\s*\b(const|volatile|__restrict)\s*$', '', (n.type() or '').strip())      # `T *const p` is a pointer too
     if t.endswith('*'):
         return True
     if n['k'] == 'CXXOperatorCallExpr' and (n.get('q') or '').split('::')[-1] in ('operator()',) and re.search(r'^muscle::(Const)?Ref::', n.get('q') or ''):
